@@ -5,6 +5,10 @@ use vstd::std_specs::convert::*;
 use core::convert::{TryFrom, TryInto};
 use core::ops::Shl;
 
+// TRUSTED (core): `==` on core::cmp::Ordering (derived PartialEq) is structural equality; this Verus build has no spec
+pub assume_specification [<Ordering as PartialEq>::eq] (a: &Ordering, b: &Ordering) -> (r: bool)
+    ensures r == (*a == *b);
+
 /// bit length of |v|: 0 for zero, otherwise the k with 2^(k-1) <= |v| < 2^k
 pub uninterp spec fn blen(v: int) -> nat;
 pub broadcast axiom fn ax_blen(v: int)
